@@ -6,7 +6,8 @@ props=${@:-C01 C02 C03 C04 C05 C06 C07 C08 C09 C10 C11 C12 C13 C14 C15 C16 C17 C
 here=$(cd "$(dirname "$0")/.." && pwd)
 copy=$(dirname "$here")/repo-copy-$$
 rsync -a --exclude target /repo/ "$copy"/
-git -C "$copy" status --porcelain | head -3
+# /repo may momentarily carry a seeded change applied by tools/seeded.py: the sweep always uses the committed tree
+git -C "$copy" checkout -q -- . ; git -C "$copy" status --porcelain --untracked-files=no | head -3
 export VERIF_REPO="$copy"
 cd "$here"
 for p in $props; do
